@@ -65,6 +65,12 @@ def showEvFull : TEv → String
   | .req n r => s!"req={n}/{r}"
   | e => (showEv e).getD "?"
 
+/-- canonical (order-independent) rendering of the packet store: pairs sorted, queues in FIFO order, empty queues included -/
+def showStoreSorted (st : Store) : String :=
+  let flat : List (Nat × Nat × List QItem) := st.flatMap fun (a1, inner) => inner.map fun (a0, q) => (a1, a0, q)
+  let sorted := flat.toArray.qsort (fun a b => a.1 < b.1 || (a.1 == b.1 && a.2.1 < b.2.1)) |>.toList
+  "{" ++ ";".intercalate (sorted.map fun (a1, a0, q) => s!"{a0}/{a1}=[" ++ ",".intercalate (q.map fun (c, d) => c.name ++ ":" ++ toHex d) ++ "]") ++ "}"
+
 def totalPeer (w : World) : Bytes := (w.past.reverse).flatten ++ w.peerGot
 
 structure Sess where
@@ -138,7 +144,7 @@ def runOpLine (s : Sess) (toks : List String) : Sess × String :=
       | .yielded d => if streaming then some ("yield:" ++ toHex (if dec then Utf8.encode (Utf8.decodeBS d) else d)) else none
       | e => showEv e
     let out := s!"res={res} peer={toHex peer} avail={if w1.available then 1 else 0} maxdata={w1.maxdata} lid={w1.localId} "
-      ++ s!"storelen={w1.store.len} now={w1.now} locks={w1.locks.length} sink={showOptBytes w1.sink} ev=[{",".intercalate evs}]"
+      ++ s!"storelen={w1.store.len} store={showStoreSorted w1.store} now={w1.now} locks={w1.locks.length} sink={showOptBytes w1.sink} ev=[{",".intercalate evs}]"
     let out := if s.detail then out ++ " trace=[" ++ ";".intercalate (w1.trace.reverse.map showEvFull) ++ "]" else out
     ({ s with w := w1 }, out)
 
